@@ -251,6 +251,7 @@ func (e *Encoder) SetCReg(adj uint8, incr bool, c ivg.Color) {
 			e.err = errInvalidIncrementingAdjustment
 		}
 		adj = 7
+		e.cSel = (e.cSel + 1) & 0x3f
 	}
 
 	if x, ok := c.Encode1(); ok {
@@ -290,6 +291,7 @@ func (e *Encoder) SetNReg(adj uint8, incr bool, f float32) {
 			e.err = errInvalidIncrementingAdjustment
 		}
 		adj = 7
+		e.nSel = (e.nSel + 1) & 0x3f
 	}
 
 	// Try three different encodings and pick the shortest.
